@@ -154,6 +154,19 @@ def run_two_lives(drv, cmds, metas, spool_parent):
     return {'e': 'Run', 'script': cmds[:split] + ['K', 'S', '# second life', 'L'] + cmds[split:], 'ev': rec1['ev'] + rec2['ev'], 'lives': 2}
 
 
+def many_children_script(rnd, n=300):
+    """n tasks of one occurrence each, all due within a few seconds, none of the jobs ends before all are started: more children
+    under supervision at a time than one pool of child watchers holds"""
+    cmds, metas = [], {}
+    for a0 in range(0, n, 25):
+        items = [{'kind': 'add', 'uid': 'kid%d' % i, 'occ': [1 + i % 3], 'maxsim': 0, 'peer': 1000} for i in range(a0, min(n, a0 + 25))]
+        metas[len(cmds)] = items; cmds.append('A\t1000\t%s' % rrgen.esc(request(items)))
+    cmds += ['T\t5', 'R', 'DA', 'T\t1', 'R', 'DA']
+    for _ in range(n // 8 + 4): cmds += ['XI\t0'] * 8 + ['DA']
+    cmds += ['T\t30', 'R', 'DA', 'Q']
+    return cmds, metas
+
+
 def limit_mix_script(rnd, peers=(1000,)):
     """tasks with a limit and tasks without one, all with several occurrences a second or two apart, jobs that take long: the
     unlimited ones overlap themselves, the limited ones hit their limit (for run_two_lives: the adds come first)"""
